@@ -30,6 +30,10 @@ LEGACY = {"address": "P", "proxy": "x", "pidfile": "p", "logfile": "l", "auditlo
 ALPH = "abcdefghijklmnopqrstuvwxyzABCXYZ0123456789/_.:-@"
 
 
+# app_timeout values: bare numbers (milliseconds), units, several groups, signs, and malformed ones
+TIMEOUTS = ["30", "0", "45s", "10m", "1h30m", "1m30s500ms", "250ms", "7us", "9ns", "-5s", "+5s", "''", '""', "abc", "5x", "s", "600000"]
+
+
 def hx(s):
     b = s.encode("latin-1") if isinstance(s, str) else s
     return b.hex() if b else "-"
@@ -90,7 +94,8 @@ def gen_op(rng):
                                     "rlimit_files = %d\n" % rng.randint(1, 99999), "loglevel = %s\n" % rng.choice(["debug", "error", "WARNING", "verbose"]),
                                     # empty values: quoted, and nothing at all after the separator
                                     "loglevel = %s\n" % rng.choice(["''", '""', ""]), "utilization.detect_aws = %s\n" % rng.choice(["''", '""']),
-                                    "rlimit_files = %s\n" % rng.choice(["''", '""'])])
+                                    "rlimit_files = %s\n" % rng.choice(["''", '""']),
+                                    "app_timeout = %s\n" % rng.choice(TIMEOUTS)])
     if use_file:
         args += rng.choice([["-c", "@CFG@"], ["--c", "@CFG@"], ["-c=@CFG@"]])
     for name, val in on_cmd.items():
@@ -114,6 +119,7 @@ def gen_op(rng):
                             ["--no-pidfile"], ["--agent=false"], ["--define", "utilization.detect_aws=off"], ["--define", "rlimit_files=%d" % rng.randint(1, 5000)],
                             ["--define", "loglevel="], ["--define", "loglevel=''"], ["--define=loglevel = \"\""], ["--define", "utilization.detect_aws="],
                             ["--define", "rlimit_files=''"], ["--loglevel", ""], ["--loglevel="],
+                            ["--define", "app_timeout=%s" % rng.choice(TIMEOUTS)], ["--define=app_timeout = %s" % rng.choice(TIMEOUTS)],
                             ["--unknownflag"], ["--pprof", "x"], ["--port"]])
     rng.shuffle(args) if False else None
     # expected winners for the plain string settings (Spec on the implementation)
@@ -139,12 +145,32 @@ def gen_op(rng):
             canon = LEVELS.get(lvl.lower())
             if canon is not None:
                 want.append("want:loglevel=%s" % hx(canon))
+        # application time-out: the last --define wins over the last file line; only well-formed values are annotated
+        NS = {"30": 30 * 10 ** 6, "0": 0, "45s": 45 * 10 ** 9, "10m": 600 * 10 ** 9, "1h30m": 5400 * 10 ** 9, "1m30s500ms": 90500 * 10 ** 6,
+              "250ms": 250 * 10 ** 6, "7us": 7000, "9ns": 9, "-5s": -5 * 10 ** 9, "+5s": 5 * 10 ** 9, "600000": 600000 * 10 ** 6}
+        tmo, bad_tmo = None, False
+        for m in _re.finditer(r"^app_timeout = (.*)$", text, _re.M):
+            tmo = m.group(1).strip()
+            bad_tmo = bad_tmo or tmo not in NS
+        for i, a in enumerate(args):
+            if a == "--define" and i + 1 < len(args) and args[i + 1].startswith("app_timeout="):
+                tmo = args[i + 1][len("app_timeout="):]
+                bad_tmo = bad_tmo or tmo not in NS
+            elif a.startswith("--define=app_timeout = "):
+                tmo = a[len("--define=app_timeout = "):]
+                bad_tmo = bad_tmo or tmo not in NS
+        if tmo is not None and not bad_tmo:
+            want.append("want:apptimeout=%s" % hx(str(NS[tmo])))
+        if bad_tmo:
+            want = ["skip"]          # a malformed value is an error: nothing is resolved (the model says "error" too)
         for name in STR:
             v = on_cmd.get(name, in_file.get(name, ""))
             if name == "address":
                 if not v:
                     v = on_cmd.get("port", in_file.get("port", "")) or "@newrelic"
             want.append("want:%s=%s" % (name, hx(v)))
+    if want and want[0] == "skip":
+        want = []
     filetok = hx(text or "\n") if use_file else "-"
     if use_file and rng.random() < 0.03:
         filetok = "missing"
